@@ -1,6 +1,6 @@
 #!/bin/bash
 # run every check of one tier on the current /repo tree, 4 at a time; summary on stdout
 tier=${1:-quick}
-cd /verif
+cd "$(dirname "$0")/.."
 mkdir -p build/logs
 ls checks/C*.py | sed 's/.*\///; s/\.py//' | xargs -P 4 -I{} sh -c "/venv/bin/python check.py {} --tier $tier > build/logs/{}.$tier.log 2>&1; echo {} exit=\$? \$(tail -1 build/logs/{}.$tier.log | cut -c1-120)"
